@@ -49,7 +49,7 @@ class Check(PropertyCheck):
     id = "C08"
     module = "Props.C08"
     extra_modules = ["Model.JobTrace"]
-    theorems = ["C08_limits_never_exceeded", "C08_cached_hold_nothing", "C08_collapsed_hold_nothing",
+    theorems = ["C08_limits_never_exceeded", "C08_no_units_leaked", "C08_cached_hold_nothing", "C08_collapsed_hold_nothing",
                 "C08_released_once", "C08_refuted_as_shipped", "C08_witness_fixed", "C08_nonvacuous"]
     assumptions = [
         "job demands are well formed (unique resource names, counts >= 0) and configured limits are >= 0 (premises of the theorem)",
